@@ -336,7 +336,11 @@ def two_roots(ctx, tmp):
 def import_by_path(ctx, tmp):
     from xdoctest.utils import util_import
     cases = [('good.py', 'X = 1\n', None), ('raises.py', 'raise RuntimeError("boom at import")\n', 'raise'),
-             ('pkg/__init__.py', 'Y = 2\n', None), ('pkg/sub.py', 'Z = 3\n', None), ('syntax.py', 'def (:\n', 'raise')]
+             ('pkg/__init__.py', 'Y = 2\n', None), ('pkg/sub.py', 'Z = 3\n', None), ('syntax.py', 'def (:\n', 'raise'),
+             # a package that binds, in its own namespace, a name that is also the name of one of its sub-modules (the usual
+             # `from .render import render`), and a deeper one: the module of that name is still the sub-module
+             ('shapes/__init__.py', 'from .render import render\nfrom .deep import leaf\n', None), ('shapes/render.py', 'def render():\n    return 1\n', None),
+             ('shapes/deep/__init__.py', 'leaf = 5\n', None), ('shapes/deep/leaf.py', 'W = 4\n', None)]
     d = os.path.join(tmp, 'imp')
     for fn, src, _ in cases:
         p = os.path.join(d, fn)
@@ -379,16 +383,17 @@ def import_by_path(ctx, tmp):
                         problem = 'import of %s raised %r' % (fn, err)
                     elif mod is not None:
                         want = fn[:-3].replace('/', '.').replace('.__init__', '')
-                        if mod.__name__ != want:
-                            problem = 'module imported from %s is named %r, expected %r' % (fn, mod.__name__, want)
+                        import types
+                        if not isinstance(mod, types.ModuleType) or getattr(mod, '__name__', None) != want:
+                            problem = 'import_module_from_path(%s) returned %r (named %r), expected the module %r' % (fn, mod, getattr(mod, '__name__', None), want)
                     if problem:
                         ctx.violation('import-by-path', {'what': problem, 'file': fn, 'index': index, 'arrangement': aname,
                                       'theorem_or_correspondence': 'C17 import_module_from_path'}, True)
-                    for k in [k for k in sys.modules if k in ('good', 'raises', 'pkg', 'pkg.sub', 'syntax')]:
+                    for k in [k for k in sys.modules if k.split('.')[0] in ('good', 'raises', 'pkg', 'syntax', 'shapes')]:
                         del sys.modules[k]
     finally:
         sys.path[:] = real_path
-    for k in [k for k in sys.modules if k in ('good', 'raises', 'pkg', 'pkg.sub', 'syntax')]:
+    for k in [k for k in sys.modules if k.split('.')[0] in ('good', 'raises', 'pkg', 'syntax', 'shapes')]:
         del sys.modules[k]
 
 
